@@ -30,6 +30,7 @@ type Config struct {
 	PNarrow       int // struct narrowing
 	PFlowTypes    int // stage ins typed after what other stages produce
 	PTwin         int // twin calls (same callee and bindings) giving same-shaped sources
+	PTopMap       int // the top-level call is a map call over a literal collection
 	PProject      int
 	// Allow map calls of pipelines which themselves contain map calls
 	// where one of the dimensions is only known at run time.
@@ -946,6 +947,31 @@ func Generate(seed int64, cfg *Config) *Program {
 	tc := &Call{Callee: top.Name}
 	for _, in := range top.Ins {
 		tc.Binds = append(tc.Binds, Binding{Id: in.Name, Exp: g.genLit(in.Type, nil, 0)})
+	}
+	if len(tc.Binds) > 0 && g.pct(cfg.PTopMap) {
+		// mapped top-level call: one argument split over a literal array or
+		// typed map of 1..3 values of the parameter's type
+		k := g.r.Intn(len(tc.Binds))
+		t := top.Ins[k].Type
+		n := 1 + g.r.Intn(3)
+		coll := &Exp{Kind: EArray}
+		if t.CanBeTMapElem() && g.pct(40) {
+			coll.Kind = EMap
+			keys := g.genKeys()
+			if len(keys) > n {
+				keys = keys[:n]
+			}
+			coll.Keys = keys
+			n = len(keys)
+		}
+		for i := 0; i < n; i++ {
+			coll.Elems = append(coll.Elems, g.genLit(t, nil, 1))
+		}
+		if n > 0 {
+			tc.Binds[k].Exp = coll
+			tc.Binds[k].Split = true
+			tc.Map = true
+		}
 	}
 	p.Top = tc
 	if cfg.MultiFile && g.pct(60) {
